@@ -266,6 +266,8 @@ def poison_run(ctx, poison_kind, payload, k):
         harn = w.sm_arn("h").replace("stateMachine", "execution") + ":healthy"
         st, out, err, t = run.outcomes.get(harn, ("NONE", None, None, None))
         wit = lambda extra: S.witness_of(run, dict(extra, poison_kind=poison_kind, poison=payload))
+        nonobject_state = poison_kind == "definition" and any(not isinstance(st, dict) for _, nn in walk(payload) if isinstance(nn, dict) and isinstance(nn.get("States"), dict)
+                                                             for st in nn["States"].values())
         escaped = "exception-in-deferred-callback-escapes-the-engine" if callback_frames(run.error) else None
         if run.error:
             ctx.violation("poison-made-an-exception-escape-the-engine", wit({}), escaped)
@@ -277,12 +279,12 @@ def poison_run(ctx, poison_kind, payload, k):
         seq = run.status_seq.get(parn)
         if seq and seq[-1] not in ("SUCCEEDED", "FAILED"):
             ctx.violation("poison-execution-left-RUNNING-for-ever", wit(dict(statuses=seq)),
-                          escaped or ("uninterpretable-state-loses-execution" if poison_kind == "definition" else None))
+                          escaped or ("uninterpretable-state-loses-execution" if nonobject_state else None))
         has_fanout = poison_kind == "definition" and any(isinstance(st, dict) and st.get("Type") in ("Parallel", "Map") for _, st in walk(payload) if isinstance(st, dict))
         for v in run.violations:
             if v["rule"].startswith("A4-") and not has_fanout:      # leftovers after a failing fan-out are C06's business
                 ctx.violation("poison-left-unacknowledged-messages-or-engine-state", wit(dict(violation=v)),
-                              escaped or ("uninterpretable-state-loses-execution" if (poison_kind == "definition" and (not seq or seq[-1] == "RUNNING")) else None))
+                              escaped or ("uninterpretable-state-loses-execution" if (nonobject_state and (not seq or seq[-1] == "RUNNING")) else None))
         # the engine keeps serving: a second healthy execution afterwards
         w.start_event(w.sm_arn("h"), "after", {"x": 2})
         w.run()
